@@ -36,6 +36,9 @@ def cpPercent : Nat := 37
 def cpDegree : Nat := 176
 def percentChars : List Nat := [112, 101, 114, 99, 101, 110, 116]
 def degChars : List Nat := [100, 101, 103]
+/-- `Δ` (U+0394) and the replacement text `delta_deg` -/
+def cpDelta : Nat := 916
+def deltaDegChars : List Nat := [100, 101, 108, 116, 97, 95, 100, 101, 103]
 
 /-- does the string contain `%` or `°` (digits of the code are code point + 1) -/
 def hasSpecialAux : Nat → Name → Bool
@@ -48,13 +51,20 @@ def hasSpecialAux : Nat → Name → Bool
 
 def hasSpecial (s : Name) : Bool := hasSpecialAux (Name.len s) s
 
-/-- the replacement itself -/
-def rewriteChars (cs : List Nat) : List Nat :=
-  cs.flatMap fun c =>
-    if Nat.beq c cpPercent then percentChars else if Nat.beq c cpDegree then degChars else [c]
+/-- the replacements themselves -/
+def rewriteOne (c : Nat) : List Nat :=
+  if Nat.beq c cpPercent then percentChars else if Nat.beq c cpDegree then degChars else [c]
 
-/-- `parse_unyt_expr`: `unit_expr.replace("%", "percent").replace("°", "deg")` (a string without
-    either character is returned as it is) -/
+def rewriteChars : List Nat → List Nat
+  | [] => []
+  | [c] => rewriteOne c
+  | c :: d :: r =>
+    if Nat.beq c cpDelta && Nat.beq d cpDegree then deltaDegChars ++ rewriteChars r
+    else rewriteOne c ++ rewriteChars (d :: r)
+
+/-- `parse_unyt_expr`: `unit_expr.replace("%", "percent").replace("Δ°", "delta_deg").replace("°", "deg")`
+    (one pass: no replacement text contains `%`, `°` or `Δ`; a string with neither `%` nor `°` is
+    returned as it is) -/
 def parserRewrite (s : Name) : Name :=
   if hasSpecial s then Name.ofChars (rewriteChars (Name.chars s)) else s
 
